@@ -1565,7 +1565,9 @@ func (x *Exec) callResolved(st *State, fr *Frame, instr ssa.CallInstruction, com
 			}
 		}
 		name := fmt.Sprintf("(%s).%s", typeShort(com.Value.Type()), com.Method.Name())
-		return x.opaqueCall(st, fr, resInstr, name, iv, com.Method.Name(), args, com.Signature().Results(), isDefer)
+		forks := x.opaqueCall(st, fr, resInstr, name, iv, com.Method.Name(), args, com.Signature().Results(), isDefer)
+		x.assumeIfaceContract(st, fr, com, iv, args)
+		return forks
 	}
 	if b, ok := com.Value.(*ssa.Builtin); ok {
 		return x.builtin(st, fr, resInstr, b, args, com, isDefer)
@@ -1580,6 +1582,38 @@ func (x *Exec) callResolved(st *State, fr *Frame, instr ssa.CallInstruction, com
 	// unknown function value: name it after the expression it came from, if it is a parameter
 	name := funcValueName(com.Value)
 	return x.opaqueCall(st, fr, resInstr, name, fv, "", args, com.Signature().Results(), isDefer)
+}
+
+// assumeIfaceContract: an assumed (ext) contract on an interface method, e.g. (reflect.Type).Kind being a pure
+// function of the type value: its ensures clauses are assumed for the call just recorded (receiver: recv).
+func (x *Exec) assumeIfaceContract(st *State, fr *Frame, com *ssa.CallCommon, recv IfaceV, args []Value) {
+	nt, ok := com.Value.Type().(*types.Named)
+	if !ok || nt.Obj().Pkg() == nil {
+		return
+	}
+	c := x.db.lookup(nt.Obj().Pkg().Path(), fmt.Sprintf("(%s).%s", nt.Obj().Name(), com.Method.Name()))
+	if c == nil || len(st.events) == 0 {
+		return
+	}
+	ev := st.events[len(st.events)-1]
+	x.trusted["assumed contract: "+nt.Obj().Pkg().Name()+"."+c.Name+" ("+c.Src+")"] = true
+	vars := map[string]Value{"recv": recv}
+	sig := com.Signature()
+	for i := 0; i < sig.Params().Len() && i < len(args); i++ {
+		if n := sig.Params().At(i).Name(); n != "" && n != "_" {
+			vars[n] = args[i]
+		}
+	}
+	for i, r := range ev.Results {
+		vars[fmt.Sprintf("result%d", i)] = r
+	}
+	if len(ev.Results) > 0 {
+		vars["result"] = ev.Results[0]
+	}
+	sc := &specCtx{x: x, st: st, vars: vars, pkg: fnPkg(fr.fn), fn: fr.fn, heap: st.heap, lets: map[string]Value{}, noGhost: true, atExit: true}
+	for _, e := range c.Ensures {
+		st.assume(x.evalBool(sc, e.Expr))
+	}
 }
 
 func typeShort(t types.Type) string {
